@@ -139,7 +139,7 @@ def _registry(rng):
         reg("np.conj", lambda d, dim: np.conj(d)),
         reg("np.angle", lambda d, dim: np.angle(d)),
         reg("np.cumsum-axis", lambda d, dim: np.cumsum(d, axis=dim)),
-        reg("update_axis-vector", lambda d, dim: dnp.update_axis(d if d.ndim == 1 else d[d.dims[-1], 0].squeeze() if False else d, ARGS.keep(np.linspace(0.0, 1.0, d.shape[0])), dim=0, new_dims="q")),
+        reg("update_axis-vector", lambda d, dim: dnp.update_axis(d, ARGS.keep(np.linspace(0.0, 1.0, d.shape[d.dims.index(dim)])), dim=d.dims.index(dim), new_dims="q")),
         reg("reorder-kept-list", lambda d, dim: (lambda c, o: (c.reorder(o), c)[1])(d.copy(), ARGS.keep([d.dims[-1]]))),
         reg("rename-then-reorder-kept", lambda d, dim: (lambda c, o: (c.reorder(o), c)[1])(d.copy(), ARGS.keep(list(reversed(d.dims))))),
         reg("np.max-axis", lambda d, dim: np.max(d, axis=dim)),
